@@ -45,6 +45,8 @@ def _module_level_mutables(m) -> dict[str, ast.AST]:
     for name, val in m.assigns.items():
         if isinstance(val, (ast.Dict, ast.List, ast.Set, ast.DictComp, ast.ListComp, ast.SetComp)):
             out[name] = val
+        elif isinstance(val, ast.BinOp) and isinstance(val.op, (ast.Mult, ast.Add)) and (isinstance(val.left, (ast.List, ast.ListComp)) or isinstance(val.right, (ast.List, ast.ListComp))):
+            out[name] = val  # [0] * 16
         elif isinstance(val, ast.Call):
             d = dotted(val.func) or ""
             if d.split(".")[-1] in ("dict", "list", "set", "OrderedDict", "defaultdict", "deque", "Counter") or d.split(".")[-1][:1].isupper():
@@ -72,6 +74,30 @@ def rule_global(ctx: Ctx) -> RuleReport:
         globals_decl = {nm for n in walk_own(fi.node) if isinstance(n, ast.Global) for nm in n.names}
         for nm in globals_decl:
             found.setdefault((m.rel, nm), []).append((fi, next(n for n in walk_own(fi.node) if isinstance(n, ast.Global))))
+        # a local bound to a module-level mutable is the same object: writes through it are writes to the global
+        alias = {}
+        for n in walk_own(fi.node):
+            if isinstance(n, ast.Assign) and len(n.targets) == 1 and isinstance(n.targets[0], ast.Name) and isinstance(n.value, ast.Name) and n.value.id in mut and n.value.id not in local_names:
+                alias[n.targets[0].id] = n.value.id
+        # ... and so is a parameter of a callee that receives it (one level: the callee's own stores)
+        passed = []
+        for c in calls_in(fi):
+            for i, a in enumerate(c.args):
+                if isinstance(a, ast.Name) and (a.id in alias or (a.id in mut and a.id not in local_names)):
+                    g0 = alias.get(a.id, a.id)
+                    for g in resolve_call(ctx.p, fi, c).funcs:
+                        ps = [x.arg for x in g.node.args.args]
+                        off = 1 if g.cls is not None and ps and ps[0] in ("self", "cls") else 0
+                        if i + off < len(ps):
+                            pn = ps[i + off]
+                            for w in walk_own(g.node):
+                                hit = (isinstance(w, (ast.Assign, ast.AugAssign)) and any(isinstance(t, ast.Subscript) and isinstance(t.value, ast.Name) and t.value.id == pn for t in (w.targets if isinstance(w, ast.Assign) else [w.target]))) or \
+                                      (isinstance(w, ast.Call) and isinstance(w.func, ast.Attribute) and w.func.attr in MUT and isinstance(w.func.value, ast.Name) and w.func.value.id == pn)
+                                if hit:
+                                    passed.append((g0, c))
+                                    break
+        for g0, c in passed:
+            found.setdefault((m.rel, g0), []).append((fi, c))
         for n in walk_own(fi.node):
             base = None
             if isinstance(n, (ast.Assign, ast.AugAssign)):
@@ -82,10 +108,14 @@ def rule_global(ctx: Ctx) -> RuleReport:
                             b = b.value
                         if isinstance(b, ast.Name) and b.id in mut and (b.id not in local_names or b.id in globals_decl):
                             base = b.id
+                        elif isinstance(b, ast.Name) and b.id in alias:
+                            base = alias[b.id]
             elif isinstance(n, ast.Call) and isinstance(n.func, ast.Attribute) and n.func.attr in MUT and isinstance(n.func.value, ast.Name):
                 b = n.func.value.id
                 if b in mut and (b not in local_names or b in globals_decl):
                     base = b
+                elif b in alias:
+                    base = alias[b]
             elif isinstance(n, ast.Delete):
                 for t in n.targets:
                     if isinstance(t, ast.Subscript) and isinstance(t.value, ast.Name) and t.value.id in mut and t.value.id not in local_names:
